@@ -30,7 +30,7 @@ class C08(object):
     exhaustive = {}
 
     def gen(self, rng, tier):
-        n_cases = 150 if tier == 'quick' else 2500
+        n_cases = 150 if tier == 'quick' else 10000
         for _ in range(n_cases):
             n = rng.choice([2, 3, 3, 4])
             c = gen.rand_dist_case(rng, nmin=n, nmax=n, amax=3 if n < 4 else 2, bases=['linear'], allow_space=False,
